@@ -5,7 +5,9 @@ CONSTANTS
   AtomCap = 8
   MaxAtomMC = 8
   MaxBody = 1000
+  BackSteps = 1000000
   AtomicOrder = "arrival"
 INVARIANT Safety
 POSTCONDITION TraceAccepted
 CHECK_DEADLOCK FALSE
+PROPERTY NeverEarly
